@@ -120,16 +120,21 @@ def configs(draw, allow_slow_dh=False, max_protect=3, fixed_suite=False):
     return cfg
 
 
-def simple_cfg(dh='19', mode='transport', proto='esp', n_protect=1, pfs=None, v6=False):
-    """A fixed, fast configuration for schedule-oriented properties."""
+def simple_cfg(dh='19', mode='transport', proto='esp', n_protect=1, pfs=None, v6=False, mixed=False):
+    """A fixed, fast configuration for schedule-oriented properties.  mixed: tunnel mode whose inner networks are of the other
+    address family than the tunnel endpoints."""
     addr_a, addr_b = ('fd00::1', 'fd00::2') if v6 else ('10.0.0.1', '10.0.0.2')
     prot = []
+    if mixed:
+        mode = 'tunnel'
     for i in range(n_protect):
         e = {'mode': mode, 'ipsec_proto': proto, 'encr_a': ['aes256', 'aes128'], 'encr_b': ['aes128', 'aes256'],
              'integ_a': ['sha256'], 'integ_b': ['sha256', 'sha1'], 'dh_a': [pfs] if pfs else [], 'dh_b': [pfs] if pfs else [],
              'ip_proto': 'tcp', 'lifetime_a': 300, 'lifetime_b': 300, 'index_a': i + 1, 'index_b': i + 11,
              'net_a': None if mode == 'transport' else f'10.{16 + i}.1.0/24',
              'net_b': None if mode == 'transport' else f'10.{32 + i}.1.0/24', 'port_a': 0, 'port_b': 23 + i}
+        if mixed:
+            e['net_a'], e['net_b'] = (f'10.{16 + i}.1.0/24', f'10.{32 + i}.1.0/24') if v6 else (f'fd10:{i}::/64', f'fd20:{i}::/64')
         prot.append(e)
     return {'addr_a': addr_a, 'addr_b': addr_b,
             'ike': {'encr_a': ['aes256'], 'encr_b': ['aes256'], 'integ_a': ['sha256'], 'integ_b': ['sha256'],
